@@ -11,7 +11,7 @@ class C12(Prop):
     quick_cases = 3000
     thorough_cases = 60000
     shard = 400
-    rule = ("random histories (<=40 ops) of Update/Advance/Observe over <=4 key ids x 3 kinds (ids shared across kinds), "
+    rule = ("[a quarter of the updates are IN FLIGHT: observations/advances placed between obtaining the handle and the update being applied] random histories (<=40 ops) of Update/Advance/Observe over <=4 key ids x 3 kinds (ids shared across kinds), "
             "mask 0..7, timeout none or T in 1..20 ticks, advances drawn from {0,1,T-1,T,T+1,2T,random}; a case is "
             "non-trivial if it contains at least one deletion or one kept observation of an anchored metric; "
             "distinct = distinct (config, op list, outputs)")
@@ -42,7 +42,16 @@ class C12(Prop):
                 r = rng.below(10)
                 k = rng.pick("cgh") if not rng.chance(1, 3) else rng.pick("cg")
                 key = rng.below(nkeys)
-                if r < 3:
+                if r < 3 and rng.chance(1, 4):
+                    # an update in flight: observations / clock advances land inside it
+                    inner = []
+                    for _ in range(rng.range(1, 3)):
+                        if rng.chance(2, 3):
+                            inner.append(["O", k if rng.chance(3, 4) else rng.pick("cgh"), key if rng.chance(3, 4) else rng.below(nkeys)])
+                        else:
+                            inner.append(["A", rng.pick([0, 1, max(tt - 1, 0), tt, tt + 1, 2 * tt])])
+                    ops.append(["S", k, key, rng.below(100), inner])
+                elif r < 3:
                     v = rng.weighted([(8, rng.below(100)), (1, 0), (1, (1 << 64) - 1 if k == "c" else (1 << 32) - 1)])
                     ops.append(["U", k, key, v])
                 elif r < 6:
@@ -53,15 +62,33 @@ class C12(Prop):
             cases.append(dict(mask=mask, timeout=T, ops=ops))
         return cases
 
+    @staticmethod
+    def _tok(o):
+        if o[0] == "U":
+            return "U%s%d:%d" % (o[1], o[2], o[3])
+        if o[0] == "A":
+            return "A%d" % o[1]
+        if o[0] == "S":
+            return "S%s%d:%d[%s]" % (o[1], o[2], o[3], ",".join(C12._tok(i) for i in o[4]))
+        return "O%s%d" % (o[1], o[2])
+
+    @staticmethod
+    def _flat(ops):
+        """the history as the model sees it: an in-flight update is Register, inner ops, Complete"""
+        out = []
+        for o in ops:
+            if o[0] == "S":
+                out.append(["R", o[1], o[2]])
+                out.extend(o[4])
+                out.append(["C", o[1], o[2], o[3]])
+            else:
+                out.append(o)
+        return out
+
     def impl_line(self, c):
         toks = []
         for o in c["ops"]:
-            if o[0] == "U":
-                toks.append("U%s%d:%d" % (o[1], o[2], o[3]))
-            elif o[0] == "A":
-                toks.append("A%d" % o[1])
-            else:
-                toks.append("O%s%d" % (o[1], o[2]))
+            toks.append(self._tok(o))
         return "%d %s | %s" % (c["mask"], "-" if c["timeout"] is None else c["timeout"], " ".join(toks))
 
     def parse_out(self, c, line):
@@ -72,11 +99,15 @@ class C12(Prop):
         cfg = "{| mask_c := %s; mask_g := %s; mask_h := %s; timeout := %s; by_kind := true |}" % (
             cq_bool(m & 1), cq_bool(m & 2), cq_bool(m & 4), cq_opt(None if c["timeout"] is None else cq_N(c["timeout"])))
         ops = []
-        for o in c["ops"]:
+        for o in self._flat(c["ops"]):
             if o[0] == "U":
                 ops.append("Update %s %s %s" % (KIND[o[1]], cq_N(o[2]), cq_N(o[3])))
             elif o[0] == "A":
                 ops.append("Advance %s" % cq_N(o[1]))
+            elif o[0] == "R":
+                ops.append("Register %s %s" % (KIND[o[1]], cq_N(o[2])))
+            elif o[0] == "C":
+                ops.append("Complete %s %s %s" % (KIND[o[1]], cq_N(o[2]), cq_N(o[3])))
             else:
                 ops.append("Observe %s %s" % (KIND[o[1]], cq_N(o[2])))
         return "(%s, %s)" % (cfg, cq_list(ops))
@@ -106,6 +137,10 @@ class C12(Prop):
         for i in range(len(ops)):
             cands.append(dict(c, ops=ops[:i] + ops[i + 1:]))
         for i, o in enumerate(ops):
+            if o[0] == "S":
+                for j in range(len(o[4])):
+                    cands.append(dict(c, ops=ops[:i] + [["S", o[1], o[2], o[3], o[4][:j] + o[4][j + 1:]]] + ops[i + 1:]))
+                cands.append(dict(c, ops=ops[:i] + [["U", o[1], o[2], o[3]]] + ops[i + 1:]))
             if o[0] == "A" and o[1] > 0:
                 cands.append(dict(c, ops=ops[:i] + [["A", o[1] - 1]] + ops[i + 1:]))
             if o[0] == "U" and o[3] > 1:
